@@ -24,6 +24,11 @@ from typing import List, Optional, Tuple
 
 from .loader import AnalysisError, ClassInfo, Ext, FuncInfo, Program
 
+# memoising library decorators: the cached function is evaluated as if called afresh (its value is a function of its
+# arguments); that the arguments are all it depends on, and that callers do not modify what it returns, is the business of
+# the `memo-purity` obligation (rules_ast.memo_purity_rule)
+LIB_MEMO = {"functools.lru_cache", "functools.cache"}
+
 LIB_TRANSPARENT = {
     "builtins.classmethod", "builtins.staticmethod", "builtins.property", "abc.abstractmethod",
     "abc.abstractproperty", "functools.wraps", "contextlib.contextmanager", "six.add_metaclass",
@@ -200,7 +205,23 @@ def classify(p: Program, fi: FuncInfo) -> List[Tuple[str, str, str]]:
         text = ast.unparse(d)
         target = d.func if isinstance(d, ast.Call) else d
         name = target.attr if isinstance(target, ast.Attribute) else target.id if isinstance(target, ast.Name) else None
-        dv = p.resolve_expr(fi.module, target)
+        try:
+            dv = p.resolve_expr(fi.module, target)
+        except Exception:
+            dv = None
+        # functools.singledispatch: the dispatcher and the implementations registered on it (`@f.register(T)`) are
+        # ordinary functions; the evaluator picks the implementation by the type of the first argument
+        if isinstance(target, ast.Attribute) and target.attr == "register" and isinstance(target.value, ast.Name):
+            disp = fi.module.functions.get(target.value.id)
+            if disp is not None and any(ast.unparse(x.func if isinstance(x, ast.Call) else x).endswith("singledispatch") for x in disp.node.decorator_list):
+                out.append(("transparent", text, "registered implementation of %s" % disp.qualname))
+                continue
+        if isinstance(dv, Ext) and dv.dotted == "functools.singledispatch":
+            out.append(("transparent", text, "single dispatch on the type of the first argument"))
+            continue
+        if isinstance(dv, Ext) and dv.dotted in LIB_MEMO:
+            out.append(("transparent", text, "memoised on its arguments (purity checked by memo-purity)"))
+            continue
         if isinstance(dv, Ext):
             if dv.dotted in LIB_TRANSPARENT or dv.dotted.rsplit(".", 1)[-1] == "cached_property":
                 out.append(("transparent", text, ""))
@@ -208,8 +229,15 @@ def classify(p: Program, fi: FuncInfo) -> List[Tuple[str, str, str]]:
                 out.append(("opaque", text, "library decorator %s is not in the table of transparent decorators" % dv.dotted))
             continue
         if isinstance(dv, ClassInfo):
+            from .loader import descriptor_kind
+
+            dk = descriptor_kind(p, dv)
             if name in DESCRIPTOR_NAMES:
                 out.append(("transparent", text, "descriptor class %s" % dv.qualname))
+            elif dk in ("name-keyed-instance", "per-descriptor-instance", "uncached-instance", "class-level", "class-level-cached"):
+                # the getter runs with the instance and its result is what the attribute access gives; where the result is
+                # kept is the business of the match-slot rule
+                out.append(("transparent", text, "descriptor class %s (%s)" % (dv.qualname, dk)))
             else:
                 out.append(("opaque", text, "descriptor class %s is not one the analysis models" % dv.qualname))
             continue
